@@ -5,7 +5,7 @@ use explore::mix;
 pub fn shim_path() -> String { std::env::var("VERIF_SHIM").unwrap_or_else(|_| "/verif/target/entropy_shim.so".into()) }
 #[derive(Clone, Debug)]
 pub struct Req { pub len: usize, pub entry: String, pub ok: bool, pub bytes: Vec<u8> }
-pub enum Mode { List(Vec<Option<Vec<u8>>>), Stream { seed: u64, fail_at: Option<u64> }, StreamFailOnce { seed: u64, fail_at: u64 } }
+pub enum Mode { Cycle { pattern: Vec<u8>, fail_at: Option<u64>, once: bool }, List(Vec<Option<Vec<u8>>>), Stream { seed: u64, fail_at: Option<u64> }, StreamFailOnce { seed: u64, fail_at: u64 } }
 /// bytes the shim returns for request k of a stream
 pub fn stream_bytes(seed: u64, k: u64, len: usize) -> Vec<u8> { let base = mix(seed, k); (0..len).map(|i| (mix(base, i as u64 / 8) >> (8 * (i % 8))) as u8).collect() }
 
@@ -15,6 +15,7 @@ pub fn run_shimmed(cmd: &Cmd, build: Build, mode: &Mode, sweep: &str, index: u64
     let mut script = None;
     match mode {
         Mode::List(a) => { let text: String = a.iter().map(|x| match x { Some(b) => format!("ok {}\n", explore::hex(b)), None => "fail\n".to_string() }).collect(); let f = scratch_file(sweep, index, "escript", text.as_bytes()); c = c.env("HDW_ENTROPY_MODE", &format!("list:{f}")); script = Some(f); }
+        Mode::Cycle { pattern, fail_at, once } => { c = c.env("HDW_ENTROPY_MODE", &format!("cycle:{}{}", explore::hex(pattern), match fail_at { Some(k) => format!(":{k}{}", if *once { ":once" } else { "" }), None => String::new() })); }
         Mode::StreamFailOnce { seed, fail_at } => { c = c.env("HDW_ENTROPY_MODE", &format!("stream:{seed}:{fail_at}:once")); }
         Mode::Stream { seed, fail_at } => { c = c.env("HDW_ENTROPY_MODE", &match fail_at { Some(k) => format!("stream:{seed}:{k}"), None => format!("stream:{seed}") }); }
     }
@@ -23,4 +24,21 @@ pub fn run_shimmed(cmd: &Cmd, build: Build, mode: &Mode, sweep: &str, index: u64
         Some(Req { len: p[1].parse().ok()?, entry: p[2].to_string(), ok: p[3] == "ok", bytes: p.get(4).and_then(|h| refmodel::eth::unhex(h)).unwrap_or_default() }) }).collect();
     rm(&log); if let Some(f) = script { rm(&f); }
     (r, reqs, c)
+}
+
+/// Data-flow oracle: `ent` is the concatenation, in request order, of the complete answers of some of the requests
+/// (one request per mnemonic today; an implementation that draws the entropy in several requests is equally faithful,
+/// and requests of concurrent workers may interleave in the log).
+pub fn carried_by(ent: &[u8], reqs: &[Req]) -> bool {
+    fn go(ent: &[u8], reqs: &[Req], from: usize, budget: &mut u32) -> bool {
+        if ent.is_empty() { return true; }
+        for j in from..reqs.len() {
+            let b = &reqs[j].bytes;
+            if reqs[j].ok && !b.is_empty() && ent.len() >= b.len() && ent[..b.len()] == b[..] { if *budget == 0 { return false; } *budget -= 1; if go(&ent[b.len()..], reqs, j + 1, budget) { return true; } }
+            // a request larger than what is left may carry the tail (e.g. a 32-byte request of which 16 bytes are used)
+            if reqs[j].ok && b.len() > ent.len() && b[..ent.len()] == ent[..] { return true; }
+        }
+        false
+    }
+    go(ent, reqs, 0, &mut 200_000)
 }
